@@ -14,16 +14,18 @@ from jaqalpaq.core import (
 
 
 def notate_slice(s):
+    # An open upper bound is written as an empty bound
+    stop = "" if s.stop is None else generate_jaqal_value(s.stop)
     if s.step:
         return "%s:%s:%s" % (
             generate_jaqal_value(s.start or 0),
-            generate_jaqal_value(s.stop),
+            stop,
             generate_jaqal_value(s.step),
         )
     else:
         return "%s:%s" % (
             generate_jaqal_value(s.start or 0),
-            generate_jaqal_value(s.stop),
+            stop,
         )
 
 
